@@ -89,6 +89,8 @@ impl ReorderBuffer {
                 }
 
                 while self.base_id != min_frame_id {
+                    #[cfg(feature = "verif")]
+                    crate::verif::tick();
                     callback(self.base_id, false);
                     self.base_id = self.base_id.wrapping_add(1);
                 }
@@ -130,6 +132,8 @@ impl ReorderBuffer {
 
         while self.frame_count > 0 && self.frames[0].wrapping_sub(self.base_id) < new_base_id.wrapping_sub(self.base_id) {
             while self.base_id != self.frames[0] {
+                #[cfg(feature = "verif")]
+                crate::verif::tick();
                 callback(self.base_id, false);
                 self.base_id = self.base_id.wrapping_add(1);
             }
@@ -145,6 +149,8 @@ impl ReorderBuffer {
         }
 
         while self.base_id != new_base_id {
+            #[cfg(feature = "verif")]
+            crate::verif::tick();
             callback(self.base_id, false);
             self.base_id = self.base_id.wrapping_add(1);
         }
